@@ -130,7 +130,8 @@ def latmio_dir_connected(R, itr, D=None, seed=None):
                         break
             att += 1
 
-    Rlatt = R[np.ix_(ind_rp[::-1], ind_rp[::-1])]  # reverse random permutation
+    ind_inv = np.argsort(ind_rp)  # inverse of the random permutation
+    Rlatt = R[np.ix_(ind_inv, ind_inv)]  # reverse random permutation
 
     return Rlatt, R, ind_rp, eff
 
@@ -229,7 +230,8 @@ def latmio_dir(R, itr, D=None, seed=None):
                     break
             att += 1
 
-    Rlatt = R[np.ix_(ind_rp[::-1], ind_rp[::-1])]  # reverse random permutation
+    ind_inv = np.argsort(ind_rp)  # inverse of the random permutation
+    Rlatt = R[np.ix_(ind_inv, ind_inv)]  # reverse random permutation
 
     return Rlatt, R, ind_rp, eff
 
@@ -370,7 +372,8 @@ def latmio_und_connected(R, itr, D=None, seed=None):
                         break
             att += 1
 
-    Rlatt = R[np.ix_(ind_rp[::-1], ind_rp[::-1])]
+    ind_inv = np.argsort(ind_rp)  # inverse of the random permutation
+    Rlatt = R[np.ix_(ind_inv, ind_inv)]
     return Rlatt, R, ind_rp, eff
 
 
@@ -479,7 +482,8 @@ def latmio_und(R, itr, D=None, seed=None):
                     break
             att += 1
 
-    Rlatt = R[np.ix_(ind_rp[::-1], ind_rp[::-1])]
+    ind_inv = np.argsort(ind_rp)  # inverse of the random permutation
+    Rlatt = R[np.ix_(ind_inv, ind_inv)]
     return Rlatt, R, ind_rp, eff
 
 
